@@ -86,6 +86,11 @@ theorem cnt_step {s s' : Spec} {tr : List Ev} {e : Ev} (h : Cnt s tr) (hs : spec
     split at hs
     · cases hs; cnt_tac h
     · cases hs
+  | query k seen =>
+    simp only [specStep] at hs
+    split at hs
+    · cases hs; cnt_tac h
+    · cases hs
   | retryScheduled i ms t =>
     simp only [specStep] at hs
     split at hs
@@ -185,7 +190,7 @@ theorem sum_step {s s' : Spec} {tr : List Ev} {e : Ev} (h : Sum s tr) (hs : spec
     · cases hs
   | abort w => simp [specStep] at hs
   | uaf w => simp [specStep] at hs
-  | sockCreated k | attempt k t | sockClosed k | handedOver k | connClosed k | down k | shutdownWr k =>
+  | sockCreated k | attempt k t | sockClosed k | handedOver k | connClosed k | down k | shutdownWr k | query k seen =>
     simp only [specStep, Spec.move] at hs
     split at hs
     · cases hs
